@@ -116,9 +116,15 @@ class FnInfo:
 class Unit:
     """one Rust source file -> one Lean namespace"""
 
-    def __init__(self, repo, rel, ns, const_files=(), externals=None, prop_of=None):
+    def __init__(self, repo, rel, ns, const_files=(), externals=None, struct_files=()):
         self.repo, self.rel, self.ns = repo, rel, ns
         self.fi = FileIndex(rel, open(repo.rstrip("/") + "/" + rel).read())
+        self.struct_src = {n: rel for n in self.fi.structs}
+        for r in struct_files:      # struct declarations of other files, used as local structures
+            idx = FileIndex(r, open(repo.rstrip("/") + "/" + r).read())
+            for n, fields in idx.structs.items():
+                if n not in self.fi.structs:
+                    self.fi.structs[n] = fields; self.struct_src[n] = r
         self.const_idx = [self.fi] + [FileIndex(r, open(repo.rstrip("/") + "/" + r).read()) for r in const_files]
         self.externals = externals or {}   # name -> {"params": [rust type str], "ret": rust type str}
         self.fns = {}        # (impl, name) -> FnInfo  (translated)
@@ -140,7 +146,12 @@ class Unit:
             if n in self.fi.enums and self.fi.enums[n] is not None:
                 if n not in self.used_enums: self.used_enums.append(n)
                 return ("enum", n)
-            if n in ("u64", "u32"): return ("int", n)
+            if n in ("Mutex", "Arc", "RefCell", "MutexGuard") and len(t[2]) == 1:
+                return self.resolve(t[2][0], impl)     # trusted: locking is the identity on the protected value
+            if n in ("BTreeMap", "OrderedMap", "Map") and len(t[2]) == 2:
+                k = self.resolve(t[2][0], impl)
+                if k != ("str",): raise RsError("map with a non-string key is outside the subset")
+                return ("map", k, self.resolve(t[2][1], impl))
             return ("opaque", n)
         if k == "opt": return ("opt", self.resolve(t[1], impl))
         if k == "vec": return ("vec", self.resolve(t[1], impl))
@@ -167,6 +178,7 @@ class Unit:
         if k == "opaque":
             if t[1] not in acc: acc.append(t[1])
         elif k in ("opt", "vec"): self.opaques_of(t[1], acc, seen)
+        elif k == "map": self.opaques_of(t[2], acc, seen)
         elif k == "tuple":
             for x in t[1]: self.opaques_of(x, acc, seen)
         elif k == "result": self.opaques_of(t[1], acc, seen)
@@ -187,6 +199,9 @@ class Unit:
         if k == "enum": return t[1]
         if k == "opt": return "Option %s" % self.lt(t[1], False) if top else "(Option %s)" % self.lt(t[1], False)
         if k == "vec": return "List %s" % self.lt(t[1], False) if top else "(List %s)" % self.lt(t[1], False)
+        if k == "map":
+            x = "List (String × %s)" % self.lt(t[2], False)
+            return x if top else "(" + x + ")"
         if k == "tuple":
             s = " × ".join(self.lt(x, False) for x in t[1])
             return s if top else "(" + s + ")"
@@ -199,14 +214,16 @@ class Unit:
 
     # ---- constants
     def const_value(self, name, local_consts):
-        """(int value, type) of a constant, evaluated now"""
+        """(int value, type) of an integer constant, evaluated now; ("expr", ast, type) for other constants"""
         if name in local_consts:
             ty, e = local_consts[name]
             return self.const_eval(e, local_consts), ty
         for idx in self.const_idx:
             if name in idx.consts:
                 ty, e = idx.consts[name]
-                return self.const_eval(e, {}), self.resolve(ty)
+                rt = self.resolve(ty)
+                if not is_int(rt): return ("expr", e, rt)
+                return self.const_eval(e, {}), rt
         return None
 
     def const_eval(self, e, lc):
@@ -280,11 +297,12 @@ class Unit:
                 def deps(t):
                     if t[0] == "struct": emit_struct(t[1])
                     elif t[0] in ("opt", "vec"): deps(t[1])
+                    elif t[0] == "map": deps(t[2])
                     elif t[0] == "tuple":
                         for x in t[1]: deps(x)
                 deps(self.struct_field(s, f))
             ops = self.opaques_of(("struct", s), [])
-            L.append("/-- `struct %s` (%s), fields used: %d of %d -/" % (s, self.rel, len(self.used_fields.get(s, [])), len(self.fi.structs[s])))
+            L.append("/-- `struct %s` (%s), fields used: %d of %d -/" % (s, self.struct_src.get(s, self.rel), len(self.used_fields.get(s, [])), len(self.fi.structs[s])))
             L.append("structure %s%s where" % (s, (" (" + " ".join(ops) + " : Type)") if ops else ""))
             for f, _ in self.fi.structs[s]:
                 if f in self.used_fields.get(s, []):
@@ -352,6 +370,7 @@ class FnTranslator:
         self.val_ty = self.ret[1] if self.is_result else self.ret
         self.params = params
         blk = f["body"]
+        self.prescan(blk)
         ir = self.stmts(blk[1], blk[2], env, self.fin_return)
         info = FnInfo()
         info.impl, info.name = self.impl, f["name"]
@@ -372,6 +391,49 @@ class FnTranslator:
         info.out_ty = self.out_type()
         info.lean_lines = lambda: fn_lean_lines(info)
         return info
+
+    def lock_alias(self, e):
+        """`X.lock().unwrap()` / `.expect(..)` -> X"""
+        if e[0] == "mcall" and e[2] in ("unwrap", "expect") and e[1][0] == "mcall" and e[1][2] == "lock" and not e[1][4]:
+            return e[1][1]
+        return None
+
+    def prescan(self, blk):
+        """a `&self` method that mutates through a lock, or calls one that does, returns the new self as well"""
+        if self.selfk != "ref": return
+        def walk(e, fn):
+            if isinstance(e, tuple):
+                if e and e[0] == "macro": return
+                fn(e)
+                for x in e: walk(x, fn)
+            elif isinstance(e, list):
+                for x in e: walk(x, fn)
+        aliases = []
+        def f1(e):
+            if e and e[0] == "let" and e[1][0] == "pvar" and e[3] is not None and self.lock_alias(e[3]) is not None:
+                if self.place_root(self.lock_alias(e[3])) == "self": aliases.append(e[1][1])
+        walk(blk, f1)
+        if aliases:
+            A = self.assigned(blk, [], set(["__none__"]))
+            # `assigned` skips names declared by let: look for mutations by hand
+            muts = []
+            def f2(e):
+                if e and e[0] == "mcall" and e[2] in MUT_METHODS and e[1][0] == "path" and e[1][1][0] in aliases: muts.append(1)
+                if e and e[0] == "assign":
+                    try:
+                        if self.place_root(e[2]) in aliases: muts.append(1)
+                    except RsError:
+                        pass
+            walk(blk, f2)
+            if muts: self.selfk = "mut"
+        calls = []
+        def f3(e):
+            if e and e[0] == "mcall" and e[1] == ("path", ["self"]) and (self.impl, e[2]) in self.u.fi.fns: calls.append(e[2])
+        walk(blk, f3)
+        for m in calls:
+            if (self.impl, m) == (self.impl, self.f["name"]): continue
+            info = self.u.get_fn(self.impl, m)
+            if info.mut_self: self.selfk = "mut"
 
     def out_type(self):
         if self.selfk == "mut":
@@ -420,6 +482,14 @@ class FnTranslator:
             pre = []
             tag = self.err_tag(e[2][0], env, pre)
             return self.wrap(pre, MCall("Rs.fail %s" % tag))
+        if e[0] == "mcall" and e[1] == ("path", ["self"]) and self.impl and (self.impl, e[2]) in self.u.fi.fns:
+            info = self.u.get_fn(self.impl, e[2])
+            if info.mut_self and info.is_result and self.selfk == "mut" and info.val_ty == self.val_ty:
+                pre = []
+                a = self.args_for(info, e[4], env, pre)
+                for x in info.exts: self.add_ext(*x)
+                self.callees.append(info.lean_name)
+                return self.wrap(pre, MCall(" ".join([info.lean_name] + [n for n, _ in info.exts] + ["self"] + a)))
         if e[0] in ("call", "mcall"):
             pre = []
             r = self.call_any(e, env, pre, want_result=True)
@@ -546,6 +616,12 @@ class FnTranslator:
             _, pat, ty, e, line = st
             if e is None: raise RsError("let without initialiser (line %d)" % line)
             want = self.u.resolve(ty, self.impl) if ty is not None else None
+            al = self.lock_alias(e)
+            if al is not None and pat[0] == "pvar":
+                _, at = self.expr(al, env, [], None)
+                env2 = dict(env)
+                env2[pat[1]] = ("alias", al, at)
+                return self.stmts(rest, tail, env2, fin)
             if e[0] in ("if", "iflet", "match") and self.has_return(e):
                 raise RsError("return inside a let initialiser (line %d)" % line)
             pre = []
@@ -607,7 +683,8 @@ class FnTranslator:
                 return self.control(e, env, k2)
             # no return inside: join on the assigned variables
             A = self.assigned(e, [], set())
-            A = [v for v in A if v in env]
+            A = [("self" if (v in env and env[v][0] == "alias") else v) for v in A if v in env]
+            A = [v for i, v in enumerate(A) if v not in A[:i]]
             for v in A:
                 if v != "self" and v not in env: raise RsError("assignment to unknown variable %s" % v)
             tup = "()" if not A else (lid(A[0]) if len(A) == 1 else "(" + ", ".join(lid(v) for v in A) + ")")
@@ -759,6 +836,8 @@ class FnTranslator:
         if k == "path" and len(e[1]) == 1:
             v = e[1][0]
             if v not in env: raise RsError("assignment to unknown variable %s" % v)
+            if env[v][0] == "alias":
+                return self.place_set(env[v][1], new, env, pre)
             pre.append(("let", lid(v), new))
             return env
         if k == "field":
@@ -813,6 +892,13 @@ class FnTranslator:
                 if m == "truncate":
                     n, nt = self.expr(a[0], env, pre, ("int", "usize"))
                     return self.place_set(recv, "(%s.take %s)" % (base, n), env, pre)
+            if bt[0] == "map" and e[2] == "insert":
+                k, kt = self.expr(e[4][0], env, pre, ("str",)); self.check_ty(kt, ("str",), "map key")
+                x, xt = self.expr(e[4][1], env, pre, bt[2]); self.check_ty(xt, bt[2], "map value")
+                return self.place_set(recv, "(Rs.smapInsert %s %s %s)" % (base, k, x), env, pre)
+            if bt[0] == "map" and e[2] == "remove":
+                k, kt = self.expr(e[4][0], env, pre, ("str",)); self.check_ty(kt, ("str",), "map key")
+                return self.place_set(recv, "(Rs.smapRemove %s %s)" % (base, k), env, pre)
             raise RsError("mutating method %s on %r is outside the subset" % (e[2], bt[0]))
         term, t = self.expr(e, env, pre, None)
         if t != UNIT:
@@ -826,7 +912,8 @@ class FnTranslator:
             raise RsError("return or ? inside a for loop is outside the subset")
         pre = []
         lst, elt = self.iter_expr(it, env, pre)
-        A = [v for v in self.assigned(body, [], set()) if v in env]
+        A = [("self" if env[v][0] == "alias" else v) for v in self.assigned(body, [], set()) if v in env]
+        A = [v for i, v in enumerate(A) if v not in A[:i]]
         if not A:
             raise RsError("for loop without effect on outer variables")
         tup = lid(A[0]) if len(A) == 1 else "(" + ", ".join(lid(v) for v in A) + ")"
@@ -959,12 +1046,21 @@ class FnTranslator:
         segs = e[1]
         if len(segs) == 1:
             v = segs[0]
-            if v in env: return lid(v), env[v]
+            if v in env:
+                if env[v][0] == "alias":
+                    return self.expr(env[v][1], env, [], None)
+                return lid(v), env[v]
             if v == "None":
                 if want is not None and want[0] == "opt": return "none", want
                 return "none", ("opt", ("unknown",))
             c = self.u.const_value(v, self.local_consts)
             if c is not None:
+                if c[0] == "expr":
+                    pre0 = []
+                    term, t = self.expr(c[1], {}, pre0, c[2])
+                    if pre0: raise RsError("constant %s with an effectful initialiser" % v)
+                    self.check_ty(t, c[2], "constant " + v)
+                    return "(%s : %s)" % (term, self.u.lt(t)), t
                 return self.lit(c[0], c[1]), c[1]
             raise RsError("unknown identifier %s" % v)
         if len(segs) == 2 and segs[0] in UMAX and segs[1] == "MAX": return UMAX[segs[0]], ("int", segs[0])
@@ -1267,6 +1363,16 @@ class FnTranslator:
             a = self.args_for(info, args, env, pre)
             if info.mut_self:
                 if self.selfk != "mut": raise RsError("&mut self method called from a &self method")
+                if info.is_result:
+                    v = self.fresh("r")
+                    call = " ".join([info.lean_name] + [n for n, _ in info.exts] + ["self"] + a)
+                    for x in info.exts: self.add_ext(*x)
+                    self.callees.append(info.lean_name)
+                    if not self.is_result: raise RsError("Result method called outside a Result function")
+                    if info.val_ty == UNIT:
+                        pre.append(("bind", "self", MCall(call))); return "()", UNIT, "val"
+                    pre.append(("bind", "(self, %s)" % v, MCall(call)))
+                    return v, info.val_ty, "val"
                 term, t, kind = self.call_translated(info, a, env, pre, "self")
                 if info.val_ty == UNIT:
                     pre.append(("let", "self", term)); return "()", UNIT, "val"
@@ -1298,6 +1404,12 @@ class FnTranslator:
         if k == "tryres": return self.tryres_method(base, bt, m, args, env, pre)
         if k == "vec" or k == "iter": return self.list_method(base, bt, m, turbo, args, env, pre, want)
         if k == "str" and m in ("to_string", "as_str", "to_owned") and not args: return base, bt, "val"
+        if k == "map" and m == "get" and len(args) == 1:
+            kk, kt = self.expr(args[0], env, pre, ("str",)); self.check_ty(kt, ("str",), "map key")
+            return "(Rs.smapGet %s %s)" % (base, kk), ("opt", bt[2]), "val"
+        if k == "map" and m == "contains_key" and len(args) == 1:
+            kk, kt = self.expr(args[0], env, pre, ("str",)); self.check_ty(kt, ("str",), "map key")
+            return "(Rs.smapGet %s %s).isSome" % (base, kk), BOOL, "val"
         raise RsError("method .%s on %r is outside the subset (line %d)" % (m, bt, line))
 
     def int_method(self, base, bt, m, args, env, pre, want):
